@@ -253,7 +253,7 @@ class Runner:
                     todo.append((c, ast))
         if not todo:
             return
-        out = common.run_model(AREA, ["emit %d %s" % (c.dev, ast) for c, ast in todo], timeout=1800)
+        out = common.run_model(AREA, ["emit %d %s" % (c.dev, ast) for c, ast in todo], timeout=600)
         if len(out) != len(todo):
             raise common.CheckError("model driver produced %d lines for %d inputs" % (len(out), len(todo)))
         for (c, ast), o in zip(todo, out):
@@ -266,7 +266,8 @@ class Runner:
         if c.line is None and not c.crash:
             return          # not run (see engine)
         self.cases += 1
-        self.gen_hist[c.name.split(":")[0]] += 1
+        parts = c.name.split(":")
+        self.gen_hist[":".join(parts[:2]) if parts[0] == "family" else parts[0]] += 1
         if c.crash:
             self.out_hist[c.crash.split(" ")[0]] += 1
             return
@@ -396,6 +397,15 @@ def family_cases(thorough):
     def add(name, s):
         out.append(Case("family:" + name, 0, s))
         out.append(Case("family:" + name, 1, s))
+    # break before continue (and the other orders) in every loop kind: the two fix-up tables are walked by separate counters
+    for nb, nc in ([(1, 1), (2, 1), (1, 2), (3, 3), (0, 2), (2, 0), (60, 60), (100, 100), (101, 1), (1, 101), (100, 101)] if thorough
+                   else [(1, 1), (2, 1), (1, 2), (100, 100), (101, 1), (1, 101)]):
+        for loop in ("while", "for", "do"):
+            for order in ("bc", "cb", "mix"):
+                for nest in ((0, 2) if thorough else (0, 1)):
+                    add("break-continue", g.fam_break_continue(nb, nc, loop, order, nest))
+    for i, src in enumerate(g.fam_lexical()):
+        add("lexical", src)
     ns = [1, 2, 50, 99, 100, 101] if thorough else [2, 99, 100, 101]
     for n in ns:
         for kind in ("break", "continue"):
@@ -444,6 +454,7 @@ def random_cases(rng, n, thorough):
 
 TRUSTED = [
     "Lean 4.33.0 kernel (lake build; leanchecker in the thorough tier); axioms allowed: propext, Classical.choice, Quot.sound (audited by #print axioms on every run)",
+    "theorems over all parse trees: C01_fixup_tables_bounded, C01_arena_fits (+ C01_arena_accounting), emit_total / compile_total, C01_reject_is_clean; C01_code_fits is only _partial (manager byte accounting) - the agreement of the two passes is compared per tree (progLength, bytes written, every code byte, certificate gross == progLength, hook H3)",
     "hand-written model lean/MorfuseModel/Emit/Model.lean of ScriptEmitter + ScriptCountManager + ScriptProgramManager + ScriptCompiler::Preallocate/Compile + the label-set / container allocation of set.h / Container.h, and Emit/Master.lean of ScriptMaster::GetProgramScript + ProgramScript::Load; tied by the differential run (progLength, bytes written, arena used/reserved, container and table sizes, required stack size, every code byte, every label set, size info of the counting pass, outcome class)",
     "translator tools/props/c01.py: Gen/EmitConsts.lean from the built binary (opcode table via its accessors, sizeof of the arena objects, table bounds, ring size, set_primes), cross-checked with ScriptOpcodes.h/.cpp and Compiler.h",
     "harness/compile.cpp: includes src/Script/Compiler.cpp to reach the file-local manager classes; its tree dump resolves names (event numbers, dictionary indices, getter/setter class look-ups) with the functions the emitter calls; its replica of EmitProgram (4 statements) is cross-checked byte-for-byte with the real path",
@@ -471,7 +482,7 @@ def check(ctx):
     thorough = ctx.tier == "thorough"
     rng = ctx.rng("random")
     streams = [corpus_cases(), family_cases(thorough)]
-    n = 24000 if thorough else 2400
+    n = 96000 if thorough else 6000
     streams += [random_cases(rng, 600, thorough) for _ in range(n // 600)]
     failing = 0
     reports = 0
@@ -504,11 +515,12 @@ def check(ctx):
     ctx.oblige("correspondence + monitor: harness/compile.cpp (real lexer, parser, compiler, registry) vs Emit model on %d inputs (%d with a tree)" % (runner.cases, runner.modelled),
                failing == 0, "%d failing cases" % failing, reported=True)
     ctx.stats["skipped_after_failures"] = skipped + runner.skipped
-    ctx.oblige("read-back certificate holds on every modelled tree", runner.cert_fail == 0, "%d trees" % runner.cert_fail)
+    ctx.oblige("per-tree certificate (the lemma C01_code_fits still lacks): gross bytes of the model's program pass == progLength of its counting pass, on every modelled tree",
+               runner.cert_fail == 0, "%d trees fail" % runner.cert_fail)
     ctx.samples = [c.src.decode("latin1")[:300] for c in random_cases(ctx.rng("sample"), 4, False)]
     cov = {
         "evaluations": runner.cases, "distinct_nontrivial": len(runner.distinct), "modelled_trees": runner.modelled,
-        "rule": "inputs: replayed corpus, deterministic stress families (fix-up table bounds 99/100/101 per loop kind and wrapper, label-set sizes up to 300 with nesting, try-in-catch / switch-in-switch / try-in-try nesting up to 40, peephole chains) and random programs / token mutations / byte noise; non-trivial = passes the parser; distinct by SHA-1 of the source",
+        "rule": "inputs: replayed corpus, deterministic stress families (break-before-continue / continue-before-break / interleaved in every loop kind with nesting, fix-up table bounds 99/100/101 per loop kind and wrapper, lexical edge cases: tokens around flex's 8/16 KB buffers, NUL bytes, unterminated strings / comments, trailing backslashes; label-set sizes up to 300 with nesting, try-in-catch / switch-in-switch / try-in-try nesting up to 40, peephole chains) and random programs / token mutations / byte noise; non-trivial = passes the parser; distinct by SHA-1 of the source",
         "outcome_histogram": dict(runner.out_hist), "generator_histogram": dict(runner.gen_hist),
         "node_kind_histogram": dict(runner.node_hist), "max_compile_ms": runner.max_ms, "exhaustive": False,
     }
